@@ -1768,3 +1768,34 @@ Section CallValues.
     rewrite (stmt_args_in_caller_frames _ _ _ _ _ _ _ _ L funs n args c), H2. reflexivity.
   Qed.
 End CallValues.
+
+Section CallValue.
+  Variables Name Atom Op Val World Bnd FId Err : Type.
+  Variable L : lang Name Atom Op Val World Bnd FId Err.
+  Variable blk : list (stmt Name Atom Op FId) -> cfg Name World Bnd -> result Err (signal * cfg Name World Bnd).
+
+  (* the value of a call is read in the CALLEE's frame and nowhere else: it is what `Result` is bound to in the frame that is
+     dropped when the body has ended - "no value" when that frame does not bind Result, whatever the frames below it
+     (the caller's own Result, a global named Result) contain *)
+  Theorem call_value_from_callee_frame fd vs (c : cfg Name World Bnd) v c' :
+    call_body L blk fd vs c = Fin (v, c') ->
+    exists sg c2 fr,
+      blk (fd_body fd) (set_env c (ScriptSem.bind_params L (fd_params fd) 0 vs (env c))) = Fin (sg, c2) /\
+      env c2 = fr :: env c' /\ world c' = world c2 /\
+      match lookup_frame L (l_result_name L) fr with
+      | None => v = l_vnone L
+      | Some b => l_view_of L b = BVal v
+      end.
+  Proof.
+    unfold call_body. destruct (blk _ _) as [[sg c2]|e| |] eqn:E; cbn [rbind snd]; try discriminate.
+    destruct (env c2) as [|fr rest] eqn:Ee; [discriminate|]. intros H. exists sg, c2, fr.
+    destruct (lookup_frame L (l_result_name L) fr) as [b|] eqn:El.
+    - destruct (l_view_of L b) eqn:Ev; try discriminate. injection H as <- <-. repeat split; auto.
+    - injection H as <- <-. repeat split; auto.
+  Qed.
+  Corollary call_without_result_yields_nothing fd vs (c : cfg Name World Bnd) sg c2 fr rest :
+    blk (fd_body fd) (set_env c (ScriptSem.bind_params L (fd_params fd) 0 vs (env c))) = Fin (sg, c2) ->
+    env c2 = fr :: rest -> lookup_frame L (l_result_name L) fr = None ->
+    call_body L blk fd vs c = Fin (l_vnone L, set_env c2 rest).
+  Proof. intros H1 H2 H3. rewrite (call_body_result _ _ _ _ _ _ _ _ L blk fd vs c sg c2 fr rest H1 H2), H3. reflexivity. Qed.
+End CallValue.
